@@ -83,7 +83,8 @@ def problems(v):
     return out
 
 
-FRONTENDS = ['generic-default', 'generic-L-BFGS-B', 'generic-Nelder-Mead', 'least-squares', 'dual-annealing', 'de-workers1', 'de-workers2']
+FRONTENDS = ['generic-default', 'generic-L-BFGS-B', 'generic-Nelder-Mead', 'generic-Powell', 'generic-BFGS', 'least-squares', 'dual-annealing', 'de-workers1',
+             'de-workers2']
 
 
 def units(tier, variant):
@@ -222,6 +223,12 @@ def run_frontend(prob, fe, workers=None):
     if fe == 'generic-Nelder-Mead':
         opt = OptimizerGeneric(prob)
         return opt, lambda: opt.optimize(method='Nelder-Mead', maxiter=60, disp=False, tol=1e-6)
+    if fe == 'generic-Powell':
+        opt = OptimizerGeneric(prob)
+        return opt, lambda: opt.optimize(method='Powell', maxiter=10, disp=False, tol=1e-6)
+    if fe == 'generic-BFGS':
+        opt = OptimizerGeneric(prob)
+        return opt, lambda: opt.optimize(method='BFGS', maxiter=30, disp=False, tol=1e-6)
     if fe == 'least-squares':
         opt = LeastSquares(prob)
         return opt, lambda: opt.optimize(maxiter=30, disp=False, tol=1e-6)
@@ -263,7 +270,7 @@ def run_history(part, unit):
     pdef = problems(unit['variant'])[unit['problem']]
     o, prob = make_problem(pdef, unit['scaled'], unit['bounded'])
     part.states += 1
-    cond = f"frontend={unit['frontend'].split('-')[0]}"
+    cond = 'frontend=' + (unit['frontend'] if unit['frontend'] in ('generic-Powell', 'generic-BFGS') else unit['frontend'].split('-')[0])
     if unit['problem'] == 'index-on-catalogue-glass':
         cond += ',index-variable-on-catalogue-glass'
     base = dict(problem=unit['problem'], scaled=unit['scaled'], bounded=unit['bounded'], frontend=unit['frontend'], word=unit['word'],
